@@ -342,7 +342,14 @@ func (ci *ConstructorInvoker) invokeWithRecovery(fn reflect.Value, info *Constru
 		}
 	}()
 
-	results = fn.Call(args)
+	// The last parameter of a variadic constructor is resolved as one
+	// slice-typed dependency: hand it over as the variadic slice itself, not
+	// as a single element of it
+	if fn.Type().IsVariadic() {
+		results = fn.CallSlice(args)
+	} else {
+		results = fn.Call(args)
+	}
 	return results, nil
 }
 
